@@ -81,6 +81,14 @@ def make_inh_trace(job):
     return {"hdr": hdr, "ev": evs}
 
 
+def dispatch_trace(job):
+    """Worker that lets one property mix worlds: opts["_worker"] names the producer."""
+    seed, profile, nops, opts = job
+    opts = dict(opts)
+    fn = globals()[opts.pop("_worker")]
+    return fn((seed, profile, nops, opts))
+
+
 def make_dyn_trace(job):
     """Worker: dynamic-space world (C07)."""
     from .gen_dyn import GenDyn
@@ -142,7 +150,7 @@ def make_c04_trace(job):
     for p, cs in defs["cells"]:
         for c, rec in cs.items():
             if defs["flib"][rec["f"]].get("style", "def") == "def" and rng.random() < 0.4:
-                docs["cells"].append([p, c, rng.choice([0, 1, 4, 5])])   # (docstring-safe entries)
+                docs["cells"].append([p, c, rng.randrange(len(DOC_CORPUS))])
     defs["docs"] = docs
     w = World(defs, track_handles=False)
     try:
@@ -161,7 +169,8 @@ def make_c04_trace(job):
         k = 0
         for i in range(nops):
             if i in (nops // 2, nops - 1):
-                ev = w.apply({"op": "write_read", "queries": queries(), "chain": bool(opts.get("chain", k == 0))})
+                ev = w.apply({"op": "write_read", "queries": queries(), "chain": bool(opts.get("chain", k == 0)),
+                              "backup": bool((seed + k) % 2)})
                 k += 1
             else:
                 op = g.next_op()
